@@ -267,16 +267,10 @@ func (w WALBatch) replay(fs *fileStore) error {
 			}
 
 		case OpUpdate:
-			tuple := Tuple{
-				Relation: &pageTableSchema,
-				Vals:     make(map[string]interface{}),
-			}
-			if err := tuple.Decode(bytes.NewBuffer(row.val)); err != nil {
+			// row.val is the new cell content of whatever table the page
+			// belongs to; it is stored as is
+			if err := node.updateCell(row.cellID, row.val); err != nil {
 				return err
-			}
-			err = node.updateCell(row.cellID, row.val)
-			if err != nil {
-				return nil
 			}
 			node.markDirty(row.LSN)
 		case OpDelete:
